@@ -288,7 +288,7 @@ var pureExterns = map[string]bool{
 	"strings.ToLower": true, "strings.Trim": true, "strings.TrimLeft": true, "strings.TrimRight": true, "strings.Repeat": true, "strings.Count": true,
 	"bytes.IndexByte": true, "bytes.Index": true, "bytes.Count": true, "bytes.Equal": true, "bytes.HasPrefix": true, "bytes.Contains": true,
 	"bytes.Compare": true,
-	"time.Now": true, "time.Since": true, "time.Date": true, "time.Parse": true, "time.Duration.String": true, "time.Unix": true,
+	"time.Now":      true, "time.Since": true, "time.Date": true, "time.Parse": true, "time.Duration.String": true, "time.Unix": true,
 	"math.Abs": true, "math.Floor": true, "math.Pow": true, "math.Pow10": true,
 	"errors.Is": true, "errors.As": false, "errors.Unwrap": true,
 	"runtime.Gosched": true,
@@ -504,6 +504,9 @@ func (eng *Engine) modItemHeaps(it ModItem, names []string, ts []types.Type, pkg
 		case *EIndex:
 			t := typeOf(n.X)
 			if t != nil {
+				if mt, ok := t.Underlying().(*types.Map); ok {
+					return mt.Elem()
+				}
 				return elemTypeOf(t)
 			}
 		case *EUn:
